@@ -80,8 +80,7 @@ class Crash:
     #    symbolic counterexample is confirmed when the real sweep shows the same anomaly category
     def replay(self, assignment, label):
         import json, subprocess, sys
-        if self.cfg['kind'].startswith('sql'):
-            return False, {'note': 'no real-FS replay for sqlite crash points'}
+        # sqlite: the real writer process is killed before its n-th modifying execute / commit on a real database file
         cat = label.split(':')[1]
         prior = assignment['vars'].get('nprior0', self.cfg.get('prior') or 0) if self.cfg.get('prior') is None else self.cfg['prior']
         buffered = bool(assignment['vars'].get('buffered0', False))
@@ -298,9 +297,9 @@ def _apply(cfg, a, old, news, kind):
     elif op == 'dump':
         c = KA.cache(archive=a); c['a'] = v2; c['c'] = v3; new['a'] = v2; new['c'] = v3; yield new; c.dump()
     elif op == 'open':
-        yield new; arch.make(kind, 'memo')
+        yield new; arch.make(kind, 'memo', os.getcwd())
     elif op == 'open_dict':
-        new['c'] = v2; yield new; Crash(cfg).make_with_dict(kind, {'c': v2})
+        new['c'] = v2; yield new; _mk = Crash(cfg); _mk.scratch = os.getcwd(); _mk.make_with_dict(kind, {'c': v2})
 
 
 def real_writer(cfg, prior, crash):
@@ -308,6 +307,25 @@ def real_writer(cfg, prior, crash):
     import os as _os
     old, news = _concrete(cfg, prior)
     kind = cfg['kind']
+    if kind.startswith('sql'):
+        shim, _undo = sqlshim.install()
+        a = arch.make(kind, 'memo', _os.getcwd())
+        for k, val in old.items():
+            a[k] = val
+        n = [0]
+
+        def hook(name):
+            if n[0] == crash:
+                _os._exit(9)
+            n[0] += 1
+        shim.hook = hook
+        g = _apply(cfg, a, old, news, kind)
+        next(g)
+        try:
+            next(g)
+        except StopIteration:
+            pass
+        _os._exit(0)
     a = arch.make(kind, 'memo')
     for k, val in old.items():
         a[k] = val
@@ -400,7 +418,8 @@ def real_reader(cfg, prior):
     new = next(g)
     out = {'categories': [], 'detail': []}
     try:
-        b = arch.make(kind, 'memo')
+        import os as _os
+        b = arch.make(kind, 'memo', _os.getcwd())
         n = len(b)
         got = dict(b.items())
         c2 = KA.cache(archive=b)
